@@ -3,6 +3,7 @@ from hypothesis import strategies as st
 
 from .. import drawer as D
 from ..core import Property, Violation
+from ..run import guard
 
 PROP = Property(
     'C14', 'exploration',
@@ -74,13 +75,13 @@ def synthetic(case, note):
     hl = [(1, 'hl_a'), (2, 'hl_b')] if case['with_hlog'] else None
     text = D.render_header_file(entries, hl, case['style'])
     with D.TempFile(text, '.h') as path:
-        table = ilog().PTETable(path)
+        table = guard('C14.table', ilog().PTETable, path)
         got = [(e.pte_pattern, e.message_format, tuple(e.params)) for e in table.entries]
         want = [(e['pattern'], e['fmt'], tuple(p for p in e['params'] if 1 <= p <= 4)) for e in entries]
         if got != want:
             raise Violation('C14.grammar', 'table read as %r, header file declares %r' % (got[:4], want[:4]),
                             sig='C14.grammar')
-        lines = ilog().parse_ilog_data(memoryview(case['data']), path)
+        lines = guard('C14.decode', ilog().parse_ilog_data, memoryview(case['data']), path)
     compare(lines, entries, case['data'])
     classify(entries, case['data'], note)
 
@@ -123,6 +124,6 @@ def shipped_case(draw):
 @PROP.given('shipped-tables', lambda tier: shipped_case(), quick=400, thorough=20000, shards_quick=8)
 def shipped(case, note):
     entries = shipped_table(case['file'])
-    lines = ilog().parse_ilog_data(memoryview(case['data']), D.shipped(case['file']))
+    lines = guard('C14.decode', ilog().parse_ilog_data, memoryview(case['data']), D.shipped(case['file']))
     compare(lines, entries, case['data'])
     classify(entries, case['data'], note)
